@@ -62,6 +62,21 @@ structure Msg where
   tags : List (Nat × Val)
   deriving DecidableEq, Repr
 
+/-- `m.get(tag, None)` for a text tag / a price-quantity tag -/
+def getText (tags : List (Nat × Val)) (t : Nat) : Option Str :=
+  match tags.find? (·.1 == t) with
+  | some (_, .text s) => some s
+  | _ => none
+
+def getNum (tags : List (Nat × Val)) (t : Nat) : Option Int :=
+  match tags.find? (·.1 == t) with
+  | some (_, .num n) => some n
+  | _ => none
+
+/-- ClOrdID (11) / OrigClOrdID (41) of a built request -/
+def Msg.clOrdId (m : Msg) : Option Str := getText m.tags 11
+def Msg.origClOrdId (m : Msg) : Option Str := getText m.tags 41
+
 structure Order where
   clordId : Str
   origClordId : Option Str := none
@@ -127,7 +142,7 @@ def digitsThenEol (s : Str) : Nat → Bool
 
 /-- `--(\d+)$` at the current position -/
 def tailMatches : Str → Bool
-  | 45 :: 45 :: rest => digitsThenEol rest (rest.takeWhile isNd).length
+  | a :: b :: rest => a == 45 && b == 45 && digitsThenEol rest (rest.takeWhile isNd).length
   | _ => false
 
 /-- `(.+)` then the tail: try `n`, `n-1`, …, 1 characters for group 1 -/
